@@ -5,6 +5,7 @@
     any interleaving of their steps. *)
 From Coq Require Import List NArith ZArith Bool String.
 From Verif Require Import Sni.SchedSkel Sni.Registry Sni.RegistryProofs Sni.RegistryGen Gen.ServerSkel.
+From Verif Require Import Sni.RegistryKick Sni.RegistryKickProofs.
 Import ListNotations.
 Local Open Scope N_scope.
 
@@ -107,6 +108,61 @@ Proof.
 Qed.
 Print Assumptions C15_source_shape.
 
+(** ** The kick path: a kicked connection ends, whatever its peer does
+    (Sni/RegistryKick.v: on top of a registry state, which peers are silent,
+    which websockets have been closed on the server side, where each kicker
+    goroutine is; whether the kicker closes the websocket is read off the
+    source) *)
+
+(** upgrade's goroutine calls old.Close(), which ends in an unconditional
+    c.conn.Close(). *)
+Theorem C15_kick_closes_connection :
+  gen_kick_forces = true /\
+  (gen_kick_calls = ["old.Close"] /\ gen_conn_closing_methods = ["old.Close"])%string.
+Proof. exact (conj gen_kick_forces_close gen_kick_calls_Close). Qed.
+Print Assumptions C15_kick_closes_connection.
+
+(** The registry part of every history with silent peers, kickers and forced
+    closes is a history of the registry model: all theorems above apply, in
+    particular the pairing of the notifications. *)
+Theorem C15_kick_histories_are_registry_histories : forall s,
+  kreachable gen_kick_forces s -> reachable (k_reg s).
+Proof. exact (kreachable_reg gen_kick_forces). Qed.
+Print Assumptions C15_kick_histories_are_registry_histories.
+
+(** upgrade starts a kicker for the connection it displaces ... *)
+Theorem C15_upgrade_starts_kicker : forall s t n old s',
+  get n (reg (k_reg s)) = Some old -> kstep gen_kick_forces s (KAct (AUpgrade t n)) = Some s' ->
+  get old (k_kick s') = Some KWaiting.
+Proof. exact (upgrade_starts_kicker gen_kick_forces). Qed.
+Print Assumptions C15_upgrade_starts_kicker.
+
+(** ... and a kicked connection that is still serving can stop serving after
+    at most two steps of its kicker (the graceful part is over; the forced
+    close) -- also when its peer is connected and never answers.  From there
+    its deferred OnDisconnect, unmap and Close are always enabled
+    ([next_action_enabled]) and it ends with exactly the pair of
+    notifications ([C15_callbacks_pair_finished]). *)
+Theorem C15_kicked_serving_can_end : forall s t th k,
+  kreachable gen_kick_forces s -> get t (threads (k_reg s)) = Some th ->
+  th_pc th = P2 -> th_crashed th = false -> get t (k_kick s) = Some k ->
+  exists acts s1 s2, (List.length acts <= 2)%nat /\ kexec gen_kick_forces s acts = Some s1 /\
+    k_reg s1 = k_reg s /\ kstep gen_kick_forces s1 (KAct (AServeEnd t)) = Some s2.
+Proof. exact (kicked_serving_can_end gen_kick_forces gen_kick_forces_close). Qed.
+Print Assumptions C15_kicked_serving_can_end.
+
+(** The seeded change C15-f, kept as a counter-model: a kick that only asks
+    for the graceful shutdown.  Connection 1 (name 7, silent peer) is kicked
+    by connection 2; its kicker times out and finishes; the name resolves to
+    2 -- and connection 1 is still serving, with its connect notification
+    and without the disconnect, after every continuation. *)
+Theorem C15_kick_without_force_refuted :
+  exists s, kexec false kinit kick_history = Some s /\ never_ends s /\
+    lookup_name (k_reg s) 7 = Some 2 /\ get 1 (k_kick s) = Some KFinished /\
+    forall acts s', kexec false s acts = Some s' -> never_ends s'.
+Proof. exact kick_without_force_refuted. Qed.
+Print Assumptions C15_kick_without_force_refuted.
+
 (** * Non-vacuity *)
 
 (** Three generations under one name; the oldest ends last.  The name always
@@ -156,3 +212,15 @@ Example C15_ex_crash :
   | None => False
   end.
 Proof. vm_compute. repeat split. Qed.
+
+(** The history of the counter-model with the kick as it is in the source:
+    after the forced close connection 1 stops serving, runs its defers and
+    has exactly its pair of notifications; the name resolves to 2. *)
+Example C15_ex_silent_peer_kicked :
+  match kexec gen_kick_forces kinit
+          (kick_history ++ [KAct (AServeEnd 1); KAct (ADisconnect 1); KAct (AUnmap 1); KAct (AClose 1)]) with
+  | Some s => proj 1 (log (k_reg s)) = [Connect 7 5 1; Disconnect 7 5 1] /\
+              lookup_name (k_reg s) 7 = Some 2 /\ In 1 (k_closed s)
+  | None => False
+  end.
+Proof. vm_compute. repeat split; auto. Qed.
